@@ -713,7 +713,7 @@ func execC14(t *testing.T, p *sim.Program, c *sim.Ctx) {
 				continue
 			}
 			old, cur := v[len(v)-2], v[len(v)-1]
-			sameKind := old.spec.ck == cur.spec.ck && old.key.kind == cur.key.kind && (old.spec.ck != c14SM9 || c14Mod(old.spec.sub, 3) == c14Mod(cur.spec.sub, 3) || (c14Mod(old.spec.sub, 3) != 0 && c14Mod(cur.spec.sub, 3) != 0))
+			sameKind := old.spec.ck == cur.spec.ck && old.key.kind == cur.key.kind && (old.spec.ck != c14SM9 || c14Mod(old.spec.sub, 4) == c14Mod(cur.spec.sub, 4) || (c14Mod(old.spec.sub, 4)%3 != 0 && c14Mod(cur.spec.sub, 4)%3 != 0))
 			sameSecret := bytes.Equal(old.spec.pw, cur.spec.pw)
 			secretDiffers := !bytes.Equal(c14Canon(old.spec.pw), c14Canon(cur.spec.pw))
 			switch old.spec.ck {
